@@ -37,3 +37,18 @@ Print Assumptions C04_bytes_lex_to_piece_tokens.
 Example C04_example :
   sql_lex ClickHouse (quote_sql_string (L "x' , (select 1) -- \")) = Some [SString (L "x' , (select 1) -- \")].
 Proof. vm_compute. reflexivity. Qed.
+
+(** the premise of the previous theorem holds of everything Compile prints for a parsed source
+    (no parameters; finding F1 excluded): whatever bytes the source's string literals, names and
+    numbers contain, the output bytes lex into the pieces' own tokens *)
+From PQL Require Import Proofs.ParsedWf Proofs.SubqWf Proofs.SqlGlueProg Proofs.LexTokOk.
+Theorem C04_compiled_bytes_lex : forall s ss ps, parse s = ParseOk ss -> Forall names_ok_stmt ss ->
+  compile [] s = COk ps -> exists ts, ptoks ps = Some ts /\ sql_lex ClickHouse (render ps) = Some ts.
+Proof. exact compile_lexes. Qed.
+Print Assumptions C04_compiled_bytes_lex.
+
+(** the scanner's own tokens are well spelled for the target: an identifier token's value is an SQL
+    word, a number token's (normalised) value is a number the dialect's lexer reads as one token *)
+Theorem C04_scanned_tokens_well_spelled : forall s, Forall tok_ok (scan s).
+Proof. exact scan_tok_ok. Qed.
+Print Assumptions C04_scanned_tokens_well_spelled.
